@@ -192,7 +192,7 @@ inst!(g8_two_rfind, [props=C02 xprops=C05+C14 tier=thorough cfg=x86std t=3600 ro
     generic::find::<8, 55>(2, true, 48));
 inst!(g8_three_rfind, [props=C02 xprops=C05+C14 tier=thorough cfg=x86std t=3600 role=generic-8lane-rfind], 10,
     generic::find::<8, 55>(3, true, 48));
-inst!(g8_one_count, [props=C07 xprops=C05+C14 tier=thorough cfg=x86std t=3600 role=generic-8lane-count], 81,
+inst!(g8_one_count, [props=C07 xprops=C05+C14 tier=manual cfg=x86std t=3600 role=generic-8lane-count], 81,
     generic::count::<8, 87>(80));
 
 // ---------------------------------------------------------------------------
@@ -569,7 +569,7 @@ inst!(sse2_three_find, [props=C01 xprops=C05+C14 tier=quick cfg=x86std t=1500 ro
 inst!(avx2_three_find_28_36, [props=C01 xprops=C05+C14 tier=thorough cfg=x86std t=1800 role=avx2-find uw=find_raw.0:2;find_raw.1:3;byte_by_byte:17], 3,
     x86::find::<67>(1, 3, false, 28, 36, 32));
 #[cfg(any(vcfg_x86std, vcfg_x86none, vcfg_x86alloc, vcfg_x86avx2, vcfg_x86rel))]
-inst!(avx2_three_find_70, [props=C01 xprops=C05+C14 tier=thorough cfg=x86std t=5400 role=avx2-find uw=find_raw.0:2;find_raw.1:4;byte_by_byte:17], 3,
+inst!(avx2_three_find_70, [props=C01 xprops=C05+C14 tier=manual cfg=x86std t=5400 role=avx2-find uw=find_raw.0:2;find_raw.1:4;byte_by_byte:17], 3,
     x86::find::<101>(1, 3, false, 0, 70, 32));
 #[cfg(any(vcfg_x86std, vcfg_x86none, vcfg_x86alloc, vcfg_x86avx2, vcfg_x86rel))]
 inst!(sse2_three_find_len80, [props=C01 xprops=C05+C14 tier=thorough cfg=x86std t=5400 role=sse2-find-long uw=find_raw.0:4;find_raw.1:5;byte_by_byte:17], 3,
@@ -620,7 +620,7 @@ inst!(avx2_three_rraw, [props=C02 xprops=C05+C14 tier=thorough cfg=x86std t=1800
 inst!(sse2_one_count, [props=C07+C05 xprops=C14 tier=quick cfg=x86std t=1800 role=sse2-count uw=count_raw.0:2;count_raw.1:4;byte_by_byte:17;oracle::count:26], 3,
     x86::count::<39>(0, 0, 24, 16));
 #[cfg(any(vcfg_x86std, vcfg_x86none, vcfg_x86alloc, vcfg_x86avx2, vcfg_x86rel))]
-inst!(avx2_one_count_28_36, [props=C07 xprops=C05+C14 tier=thorough cfg=x86std t=1800 role=avx2-count uw=count_raw.0:2;count_raw.1:3;byte_by_byte:33;oracle::count:38], 3,
+inst!(avx2_one_count_28_36, [props=C07 xprops=C05+C14 tier=manual cfg=x86std t=1800 role=avx2-count uw=count_raw.0:2;count_raw.1:3;byte_by_byte:33;oracle::count:38], 3,
     x86::count::<67>(1, 28, 36, 32));
 #[cfg(any(vcfg_x86std, vcfg_x86none, vcfg_x86alloc, vcfg_x86avx2, vcfg_x86rel))]
 inst!(sse2_one_count_len80, [props=C07 xprops=C05+C14 tier=manual cfg=x86std t=5400 role=sse2-count-long uw=count_raw.0:3;count_raw.1:5;byte_by_byte:17;oracle::count:82], 3,
